@@ -8,9 +8,13 @@ mod c01;
 mod c02;
 mod c03;
 mod c04;
+mod c05;
+mod c18;
+mod soap;
 mod drv;
 mod wire;
 mod c06;
+mod c07;
 mod c08;
 mod c09;
 mod c10;
@@ -76,7 +80,10 @@ fn run(id: &str, tier: Tier) -> i32 {
         "C02" => c02::run(tier),
         "C03" => c03::run(tier),
         "C04" => c04::run(tier),
+        "C05" => c05::run(tier),
+        "C18" => c18::run(tier),
         "C06" => c06::run(tier),
+        "C07" => c07::run(tier),
         "C08" => c08::run(tier),
         "C09" => c09::run(tier),
         "C10" => c10::run(tier),
@@ -103,7 +110,10 @@ fn replay(file: &str) -> i32 {
         "C02" => c02::replay(&v["case"]),
         "C03" => c03::replay(&v["case"]),
         "C04" => c04::replay(&v["case"]),
+        "C05" => c05::replay(&v["case"]),
+        "C18" => c18::replay(&v["case"]),
         "C06" => c06::replay(&v["case"]),
+        "C07" => c07::replay(&v["case"]),
         "C08" => c08::replay(&v["case"]),
         "C09" => c09::replay(&v["case"]),
         "C10" => c10::replay(&v["case"]),
